@@ -104,29 +104,48 @@ theorem RState.refl (b : BState) (p0 R : Plain) (h : BundleOK b.state p0 R) : RS
   | none => rw [hg] at this; exact ⟨this.1, this.2⟩
   | some x => rw [hg] at this; exact ⟨⟨this.1, this.2.1, this.2.2⟩, rfl, fun _ k hk => hk⟩
 
-/-- the block leads back from forward bundle state `B1` / reference `R` to `B0` / reference `Mp` -/
-def BlockRev (blk : BMap ARevert) (B0 B1 : BMap BAcct) (p0 Mp R : Plain) : Prop :=
-  WF blk ∧ ∀ a, RevTriple (blk.get a) (B0.get a) (B1.get a) (p0.acct a) (fun k => p0.slot a k)
+/-- the block leads back from forward bundle state `B1` / reference `R` to `B0` / reference `Mp`; entries are never
+removed by the merge and every address with a revert is in the bundle afterwards; `selfc`: the pre-state `p0` of the
+recording bundle is compatible with itself (`RevCompat`) -/
+structure BlockRev (blk : BMap ARevert) (B0 B1 : BMap BAcct) (p0 Mp R : Plain) : Prop where
+  wf : WF blk
+  triple : ∀ a, RevTriple (blk.get a) (B0.get a) (B1.get a) (fun k => p0.slot a k)
     (Mp.acct a) (fun k => Mp.slot a k) (R.acct a) (fun k => R.slot a k)
+  selfc : ∀ a r, blk.get a = some r → (B0.get a = none → Mp.acct a = none → p0.acct a = none) ∧
+    (p0.acct a = none → ∀ k, p0.slot a k = 0)
+  mono : ∀ a, (B0.get a).isSome = true → (B1.get a).isSome = true
+  pres : ∀ a r, blk.get a = some r → (B1.get a).isSome = true
 
 /-- **one `revert_latest` step** on a reverted bundle that matches the forward bundle after group k, inside the
-region `revertStepOk`: the result matches the forward bundle after group k-1 -/
-theorem revertLatest_rstate (b' : BState) (B0 B1 : BMap BAcct) (p0 R0 R1 : Plain) (pre : List (BMap ARevert))
-    (blk : BMap ARevert) (hrev : b'.reverts = pre ++ [blk]) (hR : RState b' B1 p0 R1)
-    (hblk : BlockRev blk B0 B1 p0 R0 R1) (hok : revertStepOk b' = true) :
-    RState (revertLatest b').1 B0 p0 R0 ∧ (revertLatest b').1.reverts = pre ∧ (revertLatest b').2 = true := by
+region `revertStepOk`: the result matches the forward bundle after group k-1. The reverted bundle may describe its
+states relative to another pre-state `p'` (after `extend`), compatible with `p0` where the block has reverts -/
+theorem revertLatest_rstate_gen (b' : BState) (B0 B1 : BMap BAcct) (p0 p' R0 R1 : Plain) (pre : List (BMap ARevert))
+    (blk : BMap ARevert) (hrev : b'.reverts = pre ++ [blk]) (hR : RState b' B1 p' R1)
+    (hblk : BlockRev blk B0 B1 p0 R0 R1) (hok : revertStepOk b' = true)
+    (hcmp : ∀ a r, blk.get a = some r → (B0.get a = none → R0.acct a = none → p'.acct a = none) ∧
+      (p'.acct a = none → ∀ k, p'.slot a k = 0) ∧ (r.wipe = true → ∀ k, p'.slot a k = p0.slot a k)) :
+    RState (revertLatest b').1 B0 p' R0 ∧ (revertLatest b').1.reverts = pre ∧ (revertLatest b').2 = true := by
   have hl : b'.reverts.getLast? = some blk := by rw [hrev]; simp
   rw [revertLatest_eq b' blk hl]
   refine ⟨⟨foldl_WF rlStep_WF blk b'.state hR.wf, fun a => ?_⟩, by simp [hrev], rfl⟩
   show RInv ((blk.foldl rlStep b'.state).get a) _ _ _ _ _
-  rw [rl_get blk hblk.1]
-  refine hblk.2 a _ (hR.acct a) ?_
-  cases hg : blk.get a with
-  | none => rfl
-  | some r =>
-    simp only [wipeOkO]
-    simp only [revertStepOk, hl, List.all_eq_true] at hok
-    exact hok (a, r) (mem_of_get _ _ _ hg)
+  rw [rl_get blk hblk.wf]
+  refine hblk.triple a _ _ _ ?_ (hR.acct a) ?_
+  · intro r hr
+    exact hcmp a r hr
+  · cases hg : blk.get a with
+    | none => rfl
+    | some r =>
+      simp only [wipeOkO]
+      simp only [revertStepOk, hl, List.all_eq_true] at hok
+      exact hok (a, r) (mem_of_get _ _ _ hg)
+
+theorem revertLatest_rstate (b' : BState) (B0 B1 : BMap BAcct) (p0 R0 R1 : Plain) (pre : List (BMap ARevert))
+    (blk : BMap ARevert) (hrev : b'.reverts = pre ++ [blk]) (hR : RState b' B1 p0 R1)
+    (hblk : BlockRev blk B0 B1 p0 R0 R1) (hok : revertStepOk b' = true) :
+    RState (revertLatest b').1 B0 p0 R0 ∧ (revertLatest b').1.reverts = pre ∧ (revertLatest b').2 = true :=
+  revertLatest_rstate_gen b' B0 B1 p0 p0 R0 R1 pre blk hrev hR hblk hok
+    (fun a r hr => ⟨(hblk.selfc a r hr).1, (hblk.selfc a r hr).2, fun _ _ => rfl⟩)
 
 /-! ## `merge_transitions` appends a block that leads back -/
 
@@ -138,27 +157,28 @@ theorem merge_rev (s : SState) (p0 Mp R : Plain) (h : SInv s p0 Mp R) (s' : SSta
       TInv t c (Mp.acct a) (fun k => Mp.slot a k) (fun k => R.slot a k) ∧
       Facts t.prevStatus (Mp.acct a) (fun k => Mp.slot a k) ∧
       BInv b? t.prevStatus (p0.acct a) (fun k => p0.slot a k) (Mp.acct a) (fun k => Mp.slot a k) ∧
-      b? = s.bundle.state.get a ∧ (p0.acct a = none → ∀ k, p0.slot a k = 0)
+      b? = s.bundle.state.get a
   let Post : Nat → Transition → Option BAcct → Option ARevert → Prop := fun a t b?' rev =>
-    RevTriple rev (s.bundle.state.get a) b?' (p0.acct a) (fun k => p0.slot a k) (Mp.acct a) (fun k => Mp.slot a k)
-      (R.acct a) (fun k => R.slot a k)
+    RevTriple rev (s.bundle.state.get a) b?' (fun k => p0.slot a k) (Mp.acct a) (fun k => Mp.slot a k)
+      (R.acct a) (fun k => R.slot a k) ∧
+    ((s.bundle.state.get a).isSome = true → b?'.isSome = true) ∧ (rev.isSome = true → b?'.isSome = true)
   have hstep : ∀ a t b?, Pre a t b? → ∃ b?' rev, oneAcct b? t = some (b?', rev) ∧ Post a t b?' rev := by
-    intro a t b? ⟨c, hc, hC, hT, hF, hB, hbe, hPz⟩
+    intro a t b? ⟨c, hc, hC, hT, hF, hB, hbe⟩
     obtain ⟨b?', rev, h1, _, _⟩ := merge_acct b? t c _ _ _ _ _ _ hB hF hT hC
     refine ⟨b?', rev, h1, ?_⟩
-    show RevTriple rev (s.bundle.state.get a) b?' _ _ _ _ _ _
+    show RevTriple rev (s.bundle.state.get a) b?' _ _ _ _ _ ∧ _
     rw [← hbe]
-    exact rev_acct b? t c _ _ _ _ _ _ hB hF hT hC hPz b?' rev h1
+    exact ⟨rev_acct b? t c _ _ _ _ _ _ hB hF hT hC b?' rev h1, oneAcct_pres b? t b?' rev h1⟩
   have hpre : ∀ a t, BMap.get s.ts a = some t → Pre a t (s.bundle.state.get a) := by
     intro a t ht
-    obtain ⟨_, hP2, hrest⟩ := h.acct a
+    obtain ⟨_, _, hrest⟩ := h.acct a
     cases hc : s.cache.get a with
     | none => rw [hc] at hrest; rw [ht] at hrest; cases hrest.1
     | some c =>
       rw [hc, ht] at hrest
       obtain ⟨hC, ms, ⟨hT, hms⟩, hF, hB⟩ := hrest
       rw [hms] at hF hB
-      exact ⟨c, hc, hC, hT, hF, hB, rfl, hP2⟩
+      exact ⟨c, hc, hC, hT, hF, hB, rfl⟩
   obtain ⟨b', revs', g1, g2, g3, g4, g5, g6⟩ := go_fold Pre Post hstep s.ts s.bundle [] h.wfts h.wfb WF_nil
     (fun _ _ _ => rfl) hpre
   have hm' : s.merge true = some ⟨s.db, s.sc, s.cache, [], ⟨b'.state, b'.contracts, b'.reverts ++ [revs']⟩⟩ := by
@@ -171,25 +191,43 @@ theorem merge_rev (s : SState) (p0 Mp R : Plain) (h : SInv s p0 Mp R) (s' : SSta
     have := List.append_cancel_left hr
     simpa using this
   subst hblk
-  refine ⟨g4, fun a => ?_⟩
-  show RevTriple (BMap.get revs' a) (s.bundle.state.get a) (b'.state.get a) _ _ _ _ _ _
-  cases ht : s.ts.get a with
-  | none =>
-    obtain ⟨q1, q2⟩ := g5 a ht
-    rw [q1, q2]
-    have hq2 : BMap.get ([] : BMap ARevert) a = none := rfl
-    rw [hq2]
-    obtain ⟨_, _, hrest⟩ := h.acct a
-    cases hc : s.cache.get a with
+  have hnil : ∀ a, BMap.get ([] : BMap ARevert) a = none := fun _ => rfl
+  have hts : ∀ a r, BMap.get revs' a = some r → ∃ t, s.ts.get a = some t := by
+    intro a r hg
+    cases ht : s.ts.get a with
+    | none => rw [(g5 a ht).2, hnil] at hg; cases hg
+    | some t => exact ⟨t, rfl⟩
+  refine ⟨g4, fun a => ?_, fun a r hg => ?_, fun a => ?_, fun a r hg => ?_⟩
+  · show RevTriple (BMap.get revs' a) (s.bundle.state.get a) (b'.state.get a) _ _ _ _ _
+    cases ht : s.ts.get a with
     | none =>
-      rw [hc] at hrest
-      obtain ⟨_, _, w3, w4, w5, w6⟩ := hrest
-      exact revTriple_same _ _ _ _ _ _ _ (by rw [w5, w3]) (fun k => (congrFun w6 k).trans (congrFun w4 k).symm)
-    | some c =>
-      rw [hc, ht] at hrest
-      obtain ⟨_, ms, ⟨w1, w2, _⟩, _, _⟩ := hrest
-      exact revTriple_same _ _ _ _ _ _ _ w1 (fun k => congrFun w2 k)
-  | some t => exact g6 a t ht
+      obtain ⟨q1, q2⟩ := g5 a ht
+      rw [q1, q2, hnil]
+      obtain ⟨_, _, hrest⟩ := h.acct a
+      cases hc : s.cache.get a with
+      | none =>
+        rw [hc] at hrest
+        obtain ⟨_, _, w3, w4, w5, w6⟩ := hrest
+        exact revTriple_same _ _ _ _ _ _ (by rw [w5, w3]) (fun k => (congrFun w6 k).trans (congrFun w4 k).symm)
+      | some c =>
+        rw [hc, ht] at hrest
+        obtain ⟨_, ms, ⟨w1, w2, _⟩, _, _⟩ := hrest
+        exact revTriple_same _ _ _ _ _ _ w1 (fun k => congrFun w2 k)
+    | some t => exact (g6 a t ht).1
+  · show (s.bundle.state.get a = none → Mp.acct a = none → p0.acct a = none) ∧ (p0.acct a = none → ∀ k, p0.slot a k = 0)
+    obtain ⟨t, ht⟩ := hts a r hg
+    obtain ⟨c, _, _, _, _, hB, _⟩ := hpre a t ht
+    obtain ⟨_, hP2, _⟩ := h.acct a
+    refine ⟨fun hn hM => ?_, hP2⟩
+    rw [hn] at hB
+    rw [← hB.1]; exact hM
+  · show (s.bundle.state.get a).isSome = true → (b'.state.get a).isSome = true
+    cases ht : s.ts.get a with
+    | none => rw [(g5 a ht).1]; exact fun hh => hh
+    | some t => exact (g6 a t ht).2.1
+  · show (b'.state.get a).isSome = true
+    obtain ⟨t, ht⟩ := hts a r hg
+    exact (g6 a t ht).2.2 (by rw [hg]; rfl)
 
 theorem runGroup_rev (sc : Bool) (p0 Mp : Plain) (g : Group) (s : SState) (R : Plain) (h : SInv s p0 Mp R)
     (hsc : s.sc = sc) (hr : reachGroup sc R g = true) (s' : SState) (R' : Plain) (blk : BMap ARevert)
